@@ -5,6 +5,6 @@ CONSTANTS
   FTL = 300
   MaxLen = 14
   StepDeltas = {1, 60, 7200}
-  Prefix = 5
+  Prefix = 4
   Now = 1790000000
 INVARIANTS HonestAccepted MutantsDecided HeaderRulesEquiv SkipPowDecided ReadDecided ChainOK
